@@ -317,7 +317,8 @@ struct fit_bspline_objective
     t1 = rt1;
 
     NumData = static_cast<Eigen::Index>(std::min(std::ranges::size(ts), std::ranges::size(gs)));
-    NumPts  = static_cast<Eigen::Index>(K + static_cast<Eigen::Index>((t1 - t0 + dt) / dt));
+    // the last data point uses control points istar, ..., istar + K with istar = (t1 - t0) / dt truncated
+    NumPts  = static_cast<Eigen::Index>(K + 1 + static_cast<Eigen::Index>((t1 - t0) / dt));
   }
 
   /// @brief Objective function
